@@ -523,6 +523,13 @@ class NAryFunctionRelation(AbstractBaseRelation, SimpleRepr):
             # build a mapping from the function arguments to the name of the
             # variables of the relation
             var_list = func_args(f)
+            if hasattr(f, "variable_names") and set(var_list) == {
+                v.name for v in self._variables
+            }:
+                # keyword-only function (ExpressionFunction) whose arguments
+                # are named like the variables: map by name, variable_names
+                # comes in the iteration order of a set.
+                var_list = []
             if var_list:
                 for i, var_name in enumerate(var_list):
                     self._var_mapping[self._variables[i].name] = var_name
